@@ -55,7 +55,10 @@ func c04Jobs(tier string, seed int64) []string {
 				continue
 			}
 			add("trunc:" + cfg + ":" + p)
-			add("tmpl:" + cfg + ":1:" + p)
+			// one symbolic byte at every position: ~3000 paths per program; quick: three of the seven combinations
+			if tier == "thorough" || (cfg == "gcfk" && (pi == 0 || pi == 3)) || (cfg == "val" && pi == 1) {
+				add("tmpl:" + cfg + ":1:" + p)
+			}
 			if tier == "thorough" && pi < 1 {
 				add("tmpl:" + cfg + ":2:" + p)
 			}
@@ -69,12 +72,45 @@ func c04Jobs(tier string, seed int64) []string {
 	for _, s := range []string{
 		strings.Repeat("(", 40) + "1" + strings.Repeat(")", 40), strings.Repeat("[", 40) + strings.Repeat("]", 40),
 		strings.Repeat("(", 40), strings.Repeat("{a:", 30), strings.Repeat("x->", 30) + "1", `"abc`, `'abc`, `/* abc`, `"a\`, "1e", "1e+", "1..2",
-		strings.Repeat("-", 50) + "1", strings.Repeat("if ", 20), "\x00", "a\x00b", "\xff\xfe", "let", "func f(", "switch 1 case",
+		strings.Repeat("-", 50) + "1", strings.Repeat("if ", 20), c04Chain(40, "->", "+pi"), c04Chain(40, "->", ""), c04LetChain(40), c04FuncChain(20), "\x00", "a\x00b", "\xff\xfe", "let", "func f(", "switch 1 case",
 	} {
 		add("conc:val:" + s)
 		add("conc:gcfk:" + s)
 	}
 	return jobs
+}
+
+// c04Chain: n nested closures with distinct parameter names whose body refers to the outermost one
+// (identifier resolution walks all scopes: must stay linear).
+func c04Chain(n int, arrow, tail string) string {
+	var sb strings.Builder
+	for i := 0; i < n; i++ {
+		sb.WriteString("q" + strconv.Itoa(i) + arrow)
+	}
+	sb.WriteString("q0" + tail)
+	return sb.String()
+}
+
+func c04LetChain(n int) string {
+	var sb strings.Builder
+	sb.WriteString("let q0=1; ")
+	for i := 1; i < n; i++ {
+		sb.WriteString("let q" + strconv.Itoa(i) + "=q" + strconv.Itoa(i-1) + "+q0; ")
+	}
+	sb.WriteString("q" + strconv.Itoa(n-1))
+	return sb.String()
+}
+
+func c04FuncChain(n int) string {
+	var sb strings.Builder
+	for i := 0; i < n; i++ {
+		sb.WriteString("func g" + strconv.Itoa(i) + "(x" + strconv.Itoa(i) + ") ")
+	}
+	sb.WriteString("x0")
+	for i := n - 1; i >= 0; i-- {
+		sb.WriteString("; g" + strconv.Itoa(i) + "(1)")
+	}
+	return sb.String()
 }
 
 // genericParser builds a Parser[int] in the style of the examples.
